@@ -219,6 +219,10 @@ func init() {
 				valid(d+" WITH "+e, true, "an exception id is rejected after WITH behind the deprecated id "+d)
 				valid(d+"+ WITH "+e, true, "an exception id is rejected after WITH behind the deprecated id "+d+" with '+'")
 			}
+			if i := len(e); i%4 == int(seed%4) || thorough() {
+				valid("LicenseRef-Apache-2.0-or-later OR Apache-2.0-or-later WITH "+e, true, "an exception id is rejected after WITH behind a rewritten licence whose text also names an earlier reference")
+				valid("DocumentRef-MIT-or-later:LicenseRef-x AND MIT-or-later+ WITH "+e, true, "an exception id is rejected after WITH behind a rewritten licence whose text also names an earlier reference")
+			}
 			el := caseMut(e, 0)
 			for _, ctx := range []string{"(MIT WITH %s)", "ISC OR MIT WITH %s", "MIT WITH %s AND ISC", "(ISC AND (MIT+ WITH %s)) OR Zlib", "MIT  WITH  %s"} {
 				valid(fmt.Sprintf(ctx, e), true, "an exception id is rejected after WITH in the context "+ctx)
@@ -485,6 +489,19 @@ func genWorkload(n int) []*call {
 			w = append(w, &call{fn: 0, expr: e, list: []string{"MIT"}}, &call{fn: 1, expr: e}, &call{fn: 2, list: []string{"MIT", e}},
 				&call{fn: 0, expr: "MIT", list: []string{"MIT", e}})
 		}
+	}
+	// expressions with a REPEATED group and groups that are prefixes of others, extracted several times (an order taken from a
+	// map iteration differs from call to call)
+	for i := 0; i < 12; i++ {
+		ts := texts(distinctTerms(3))
+		e := "(" + ts[0] + " AND " + ts[1] + ") OR " + ts[1] + " OR (" + ts[1] + " AND " + ts[0] + ") OR (" + ts[1] + " AND " + ts[2] + ")"
+		if i%2 == 1 {
+			e = ts[0] + " OR (" + ts[0] + " AND " + ts[1] + ") OR (" + ts[0] + " AND " + ts[2] + ") OR (" + ts[1] + " AND " + ts[0] + ") OR " + ts[0]
+		}
+		for j := 0; j < 6; j++ {
+			w = append(w, &call{fn: 1, expr: e})
+		}
+		w = append(w, &call{fn: 0, expr: e, list: []string{ts[1]}})
 	}
 	// a valid list, then ONE entry that is that list joined by a separator (a cache keyed by the joined text cannot tell
 	// them apart; the joined entry is never valid)
@@ -1210,6 +1227,16 @@ func families() []family {
 			}
 			return e, someIDs
 		}, scale(64, 256), 0},
+		{"or-list-of-or-groups-after-docref", func(n int) (string, []string) {
+			p := make([]string, n)
+			for i := range p {
+				p[i] = "(" + id(2*i) + " OR " + id(2*i+1) + ")"
+			}
+			return "DocumentRef-d:LicenseRef-x OR " + strings.Join(p, " OR "), []string{"FSFAP"}
+		}, scale(64, 256), 0},
+		{"refused-deep-nest-syntax-error", func(n int) (string, []string) {
+			return "MIT AND " + strings.Repeat("(", n) + "ISC OR :", []string{"MIT"}
+		}, scale(64, 256), 0},
 		{"or-left-nested", func(n int) (string, []string) {
 			e := id(0)
 			for i := 1; i <= n; i++ {
@@ -1510,6 +1537,9 @@ func init() {
 					// the cost model of a refused call has no expansion term: take the token counts from a text with the same
 					// tokens and a linear expansion (the model driver would otherwise materialise 2^n alternatives)
 					statsOf = strings.ReplaceAll(e, " AND ", " OR ")
+					if strings.HasSuffix(e, ":") { // an INVALID expression: take the counts from the valid text with the same tokens
+						statsOf = strings.TrimSuffix(statsOf, ":") + "MIT" + strings.Repeat(")", strings.Count(e, "("))
+					}
 				}
 				ks, ok := modelStats(statsOf)
 				if !ok {
